@@ -397,6 +397,7 @@ class Interp:
         self.notes = []
         self.loops = []  # loop summaries (for C08)
         self.handled = []  # (ExcInfo, handler function) caught raises
+        self.comps = []  # data-dependent comprehensions
         self.fresh = itertools.count(1)
         if not hasattr(prog, '_dynamic_globals'):
             prog._dynamic_globals = self._find_dynamic_globals()
@@ -1887,12 +1888,23 @@ class Interp:
         return None
 
     def ex_ListComp(self, node, state, frame):
-        items, more = self._comprehension(node, node.elt, state, frame)
-        return self.alloc(state, ListObj(items, more=more,
-                                         origin=self.site(node)))
+        return self._list_comp(node, state, frame)
 
     def ex_GeneratorExp(self, node, state, frame):
+        return self._list_comp(node, state, frame)
+
+    def _list_comp(self, node, state, frame):
         items, more = self._comprehension(node, node.elt, state, frame)
+        if more:
+            # data-dependent comprehension: an unknown number of elements of
+            # the one abstract shape; recorded like a summarised loop
+            self.comps.append({'func': self.cur_func, 'node': node,
+                               'site': self.site(node),
+                               'elts': list(items),
+                               'chain': self.chain()})
+            return self.alloc(state, ListObj(
+                (), more=True, origin=self.site(node),
+                source=Sym('comp', tuple(_as_term(i) for i in items))))
         return self.alloc(state, ListObj(items, more=more,
                                          origin=self.site(node)))
 
